@@ -4,8 +4,8 @@ import Pyrealb.Props.C18
 #print axioms Pyrealb.C18.expandConj_sound_refl_holds
 #print axioms Pyrealb.C18.expandConj_refl_text_holds
 #print axioms Pyrealb.C18.conj_wf_tbl_holds
-#print axioms Pyrealb.C18.expandConj_complete_partial
-#print axioms Pyrealb.C18.expandConj_complete_refuted
+#print axioms Pyrealb.C18.expandConj_complete_cells_holds
+#print axioms Pyrealb.C18.expandConj_complete_holds
 #print axioms Pyrealb.C18.intr_veto_holds
 #print axioms Pyrealb.C18.expandDecl_sound_holds
 #print axioms Pyrealb.C18.distinct_rows_tbl_holds
